@@ -17,6 +17,7 @@ import (
 
 func init() {
 	engines["C02"] = func() Engine { return &memEngine{prop: "C02"} }
+	engines["C01"] = func() Engine { return &memEngine{prop: "C01"} }
 }
 
 type memEngine struct{ prop string }
@@ -281,6 +282,34 @@ type trkRepo struct {
 	blobs     map[string]trkBlob
 	manifests map[string]trkManifest
 	tags      map[string]ociregistry.Descriptor
+	// immutable-tags mode: references ever recorded for a manifest digest, and
+	// everything that was at some point reachable from a tag (it must stay).
+	refsEver  map[string][]refTok
+	protected map[string]bool
+}
+
+// protect adds everything currently reachable from a tag to the protected set,
+// following the references a digest was EVER stored with (so that re-storing the
+// same bytes under another media type cannot unprotect anything).
+func (r *trkRepo) protect() {
+	if r.protected == nil {
+		r.protected = map[string]bool{}
+	}
+	var visit func(d string)
+	visit = func(d string) {
+		if r.protected[d] {
+			return
+		}
+		r.protected[d] = true
+		for _, ref := range r.refsEver[d] {
+			if ref.kind != 2 { // a subject may dangle and is not retained
+				visit(ref.digest)
+			}
+		}
+	}
+	for _, d := range r.tags {
+		visit(string(d.Digest))
+	}
 }
 
 func (r *trkRepo) hasContent() bool {
@@ -301,7 +330,7 @@ func newTracker(imm bool) *tracker {
 func (t *tracker) repo(name string) *trkRepo {
 	r := t.repos[name]
 	if r == nil {
-		r = &trkRepo{blobs: map[string]trkBlob{}, manifests: map[string]trkManifest{}, tags: map[string]ociregistry.Descriptor{}}
+		r = &trkRepo{blobs: map[string]trkBlob{}, manifests: map[string]trkManifest{}, tags: map[string]ociregistry.Descriptor{}, refsEver: map[string][]refTok{}, protected: map[string]bool{}}
 		t.repos[name] = r
 	}
 	return r
@@ -613,8 +642,12 @@ func memOracle(c Case, impl []string, wire bool) []Failure {
 				fail("mem-accepts-bad-tag", "manifest_accepted_iff", "err")
 			}
 			r.manifests[dg] = trkManifest{[]byte(data), mt, subject, refs}
+			r.refsEver[dg] = append(r.refsEver[dg], refs...)
 			if tag != "" {
 				r.tags[tag] = ociregistry.Descriptor{MediaType: mt, Digest: ociregistry.Digest(dg), Size: int64(len(data))}
+			}
+			if tr.immutable {
+				r.protect()
 			}
 		case "mount":
 			from, dg := arg(2), arg(4)
@@ -645,13 +678,15 @@ func memOracle(c Case, impl []string, wire bool) []Failure {
 			if isErr {
 				if !(tr.immutable && errCls == "DENIED") {
 					fail("mem-delete-refused", "found_until_deleted", "ok")
-				} else if !rp.reachable(dg) {
+				} else if !rp.reachable(dg) && !rp.protected[dg] {
 					fail("mem-delete-denied-unreferenced", "found_until_deleted", "ok")
 				}
 				break
 			}
 			if tr.immutable && rp.reachable(dg) {
 				fail("mem-deletes-reachable-blob", "reachable_retained", "err DENIED")
+			} else if tr.immutable && rp.protected[dg] {
+				fail("mem-deletes-once-reachable-blob", "reachable_retained", "err DENIED (a tagged manifest referenced this blob)")
 			}
 			delete(rp.blobs, dg)
 		case "deletemanifest":
@@ -664,13 +699,15 @@ func memOracle(c Case, impl []string, wire bool) []Failure {
 			if isErr {
 				if !(tr.immutable && errCls == "DENIED") {
 					fail("mem-delete-refused", "found_until_deleted", "ok")
-				} else if !rp.reachable(dg) {
+				} else if !rp.reachable(dg) && !rp.protected[dg] {
 					fail("mem-delete-denied-unreferenced", "found_until_deleted", "ok")
 				}
 				break
 			}
 			if tr.immutable && rp.reachable(dg) {
 				fail("mem-deletes-reachable-manifest", "reachable_retained", "err DENIED")
+			} else if tr.immutable && rp.protected[dg] {
+				fail("mem-deletes-once-reachable-manifest", "reachable_retained", "err DENIED (a tagged manifest referenced this manifest)")
 			}
 			delete(rp.manifests, dg)
 		case "deletetag":
